@@ -93,6 +93,9 @@ func Generate(t *tape.Tape, p Profile) *World {
 	if p.Twin {
 		g.twin()
 	}
+	if p.Clusters && t.Chance(1, 6) {
+		g.nestedGroupCalls()
+	}
 	if p.Clusters && t.Chance(1, 5) {
 		g.curriedPair()
 	}
@@ -289,7 +292,7 @@ func (g *gen) structRef(self *Decl, allowSelf bool) *Ty {
 		}
 	}
 	if g.w.HasExt {
-		cands = append(cands, Named("ext", "T"), Named("ext", "U"), Named("ext", "V"), Named("ext", "X"), Named("oext", "T"), Named("oext", "W"), Named("op", "G"), Named("op", "User"))
+		cands = append(cands, Named("ext", "T"), Named("ext", "U"), Named("ext", "V"), Named("ext", "X"), Named("oext", "T"), Named("oext", "W"), Named("op", "G"), Named("op", "User"), Named("kgo", "M"))
 	}
 	if len(cands) == 0 {
 		return nil
@@ -487,7 +490,7 @@ func (g *gen) simple(plugin string, T *Ty) *Call {
 func usesExt(t *Ty) bool {
 	s := map[string]bool{}
 	t.uses(s)
-	return s["ext"] || s["oext"] || s["op"]
+	return s["ext"] || s["oext"] || s["op"] || s["kgo"]
 }
 
 // elemFor draws an element type suitable for list helpers of a plugin.
